@@ -312,6 +312,11 @@ func checkC13(c *c13Case) error {
 		if op.BindK {
 			settings = append(settings, xsel.WithNS("k", "urn:x"))
 		}
+		if op.Plain && op.Alt {
+			// this query - and only this one - binds a user function and shadows a core one
+			settings = append(settings, xsel.WithFunction("probe", func(xsel.Context, ...xsel.Result) (xsel.Result, error) { return xsel.Number(1), nil }),
+				xsel.WithFunction("string-length", func(xsel.Context, ...xsel.Result) (xsel.Result, error) { return xsel.Number(7), nil }))
+		}
 		// a user function that hands out a node-set the caller still holds (registered per call, never in the caller's map)
 		settings = append(settings, func(cs *xsel.ContextSettings) {
 			if cs.FunctionLibrary == nil || len(cs.FunctionLibrary) == 0 && op.Plain {
@@ -382,6 +387,15 @@ func checkC13(c *c13Case) error {
 			// a prefix is bound only for the query it was bound for
 			if strings.Contains(c.Exprs[op.Expr], "k:") && !op.BindK && !isErr && op.Node == "/" {
 				return fmt.Errorf("step %d (%s): the prefix k is not bound for this query (an earlier query bound it) but the query succeeded: %s", step, what, snap)
+			}
+			// user functions are bound for the query they were bound for
+			if !(op.Plain && op.Alt) {
+				if c.Exprs[op.Expr] == "probe()" && !isErr {
+					return fmt.Errorf("step %d (%s): the function probe() is not bound for this query (an earlier query bound it) but the query succeeded: %s", step, what, snap)
+				}
+				if n, ok := r.(xsel.Number); c.Exprs[op.Expr] == "string-length('abcde')" && (!ok || n != 5) {
+					return fmt.Errorf("step %d (%s): string-length('abcde') = %s although this query does not shadow the core function (an earlier query did)", step, what, snap)
+				}
 			}
 			// a variable evaluates to the value bound under the query's OWN bindings,
 			// whatever bindings earlier queries used
@@ -599,6 +613,7 @@ func TestC13(t *testing.T) {
 			"$v//*", "$v/descendant-or-self::*", "$w/ancestor-or-self::*", "$v/descendant-or-self::node()", "$w/ancestor-or-self::node()", "$v/following::*", "$w/preceding::*", "$v/*", "$w/@*", "$v/namespace::*",
 			"$v/following-sibling::*", "$w/preceding-sibling::*", "$v/descendant::*", "$w/ancestor::*", "$v/parent::*", "$v/self::*",
 			// literals with backslashes (single-quoted: plain characters)
+			"probe()", "string-length('abcde')", "probe() + string-length(name(/*))", "//*[string-length(name()) = 1]",
 			"h:held()[1]", "h:held()[last()]", "(h:held())[. = 1]", "h:held() | //a", "h:held()/self::*", "count(h:held()[position() > 1])",
 			"'a\\b'", "//*[. = 'x\\ty']", "concat('\\n', 'q', name(/*))", "string-length('\\r\\n-')"}
 		for i, n := 0, rapid.IntRange(3, 6).Draw(t, "nExprs"); i < n; i++ {
